@@ -14,8 +14,9 @@
 (* are Step restricted to one recogniser.                                   *)
 (*                                                                          *)
 (* The spec describes the DOCUMENTED arithmetic: every offset the lexer     *)
-(* cuts the input at is a character boundary.  Three constants switch a     *)
-(* site to the arithmetic of the code as it was/is written:                 *)
+(* cuts the input at is a character boundary.  Two constants switch three   *)
+(* sites to the arithmetic of the code as it was written on the pinned tree *)
+(* (since repaired by the fix commits 17b1024, bb8c38a and 5ef6c70):        *)
 (*   CodeArith  = TRUE: keyword_or_ident steps one BYTE over the first      *)
 (*                character (`&tail[1..]`), f_string_part uses the          *)
 (*                character index as a byte count (`chars().enumerate()`),  *)
@@ -178,8 +179,9 @@ Top == stk[Len(stk)]
 Pop == SubSeq(stk, 1, Len(stk) - 1)
 SetTop(v) == [stk EXCEPT ![Len(stk)] = v]
 
+(* skip_shebang: "a first line starting with #! is ignored" *)
 ShebangStep ==
-  IF At(1) = "hash" /\ At(2) = "bang" /\ N >= 3 /\ ~IsWs(inp[3])
+  IF At(1) = "hash" /\ At(2) = "bang"
   THEN StepRec("shebang", <<Piece("Shebang", 0, Off(LineEnd(2)))>>, LineEnd(2), "tok", stk, NoStop, {0, Off(LineEnd(2))})
   ELSE StepRec("noshebang", <<>>, 0, "tok", stk, NoStop, {})
 
